@@ -220,6 +220,11 @@ class Cluster:
         self.leader = self._start("leader", self.lport, ["--aof_ring_buffer_size", str(self.ring), "--aof_ring_buffer_max_size", str(self.ringmax)])
         self.proxy = Proxy(self.lport)
 
+    def restart_leader(self):
+        """SIGKILL the leader and start it again on the SAME data dir and port (the proxy keeps pointing at it)"""
+        self._kill(self.leader)
+        self.leader = self._start("leader", self.lport, ["--aof_ring_buffer_size", str(self.ring), "--aof_ring_buffer_max_size", str(self.ringmax)])
+
     def start_follower(self, empty=False):
         if empty:
             shutil.rmtree(os.path.join(self.dir("follower"), "data"), ignore_errors=True)
@@ -780,7 +785,7 @@ class Run:
 
 def scenario(seed, root, kind):
     """kind: 'basic' (full on empty dir, resume after a short gap, full resync after a long gap) or one of the thorough ones."""
-    ring = {"basic": 2048, "cuts": 4096, "filecut": 2048, "filecut0": 2048, "filekill": 4096, "emptydir": 2048, "expiredrecord": 2048, "livegap": 2048, "bigvalue": 262144}[kind]
+    ring = {"basic": 2048, "cuts": 4096, "filecut": 2048, "filecut0": 2048, "filekill": 4096, "emptydir": 2048, "expiredrecord": 2048, "livegap": 2048, "bigvalue": 262144, "leaderrestart": 2048}[kind]
     run = Run(seed, root, ring=ring, label=kind)
     cl = run.cl
     cap = ring // 64
@@ -870,6 +875,23 @@ def scenario(seed, root, kind):
             run.note(f"connection cut, bursts with value sizes {sizes[2:6]} while the live follower is away")
             run.settle("resume of a live follower after large-value bursts", timeout=24)
             run.check_handshakes("reconnect", n_lo=n_lo, expect="resume")
+        elif kind == "leaderrestart":
+            # a leader that was restarted on its data dir and has written nothing since (its ring buffer is empty, its log is not) is joined
+            # by a follower with an empty dir: the transfer from scratch consists of the file part alone and must carry the newest record too
+            cl.kill_follower()
+            wl.run(run.rnd.randrange(6, 16), short=False)
+            time.sleep(1.4)                    # the AOF is flushed once a second
+            n0 = run.offset()
+            wl.close()
+            cl.restart_leader()
+            wl = run.wl = Workload(seed + 1000, cl.lport)
+            run.note(f"follower killed; leader wrote up to {n0} records, was killed after its flush and restarted on the SAME dir; nothing written since")
+            cl.start_follower(empty=True)
+            # (the STATE is compared, not the logs: the file part of a transfer legitimately leaves out records whose deadline has passed)
+            run.settle("fresh follower joins a restarted leader with an empty ring buffer")
+            run.log_pos = len(cl.log_text("leader"))
+            wl.run(run.rnd.randrange(5, 15), short=False)
+            run.settle("live stream after joining a restarted leader")
         elif kind == "livegap":
             # (c) the connection is cut, both processes stay alive, the leader writes more than the buffer holds before the follower's retry
             # (5 s later): the SAME follower process is told ERR_NOT_FOUND and must drop its state before the transfer from scratch
